@@ -89,4 +89,37 @@ theorem cbc_dec_of (h : Implements c k) (iv : List Nat) (hiv : IsBlock c.len iv)
   rw [← hP, join_readBlocks c.len n _ (by omega)]
   exact pf.remove st
 
+theorem ecb_length_of (h : Implements c k) (s : Spec.ModePad.Scheme) (M : List Nat) (pf : PadFacts s c.len M) :
+    (Spec.Mode.ecb k s M).length = (Spec.ModePad.pad s c.len M).length := by
+  obtain ⟨n, hn⟩ := pf.len
+  have hb : ∀ b ∈ readBlocks c.len n (Spec.ModePad.pad s c.len M), IsBlock c.len b := readBlocks_isBlock hn pf.bytes
+  have hE : ∀ b ∈ (readBlocks c.len n (Spec.ModePad.pad s c.len M)).map k.E, b.length = c.len := by
+    intro b hb'
+    obtain ⟨a, ha, rfl⟩ := List.mem_map.1 hb'
+    exact (h.E_block a (hb a ha)).1
+  simp only [Spec.Mode.ecb, Spec.Mode.concat, Spec.Mode.ecbEncrypt, h.len_eq, blocks_of_mult c.len n h.len_pos _ hn]
+  have := length_join_of_all c.len _ hE
+  simp only [join] at this
+  rw [this, List.length_map, readBlocks_length, hn]
+
+theorem cbc_length_of (h : Implements c k) (iv : List Nat) (hiv : IsBlock c.len iv) (s : Spec.ModePad.Scheme) (M : List Nat)
+    (pf : PadFacts s c.len M) :
+    (Spec.Mode.cbc k iv s M).length = (Spec.ModePad.pad s c.len M).length + c.len := by
+  obtain ⟨n, hn⟩ := pf.len
+  have hb : ∀ b ∈ readBlocks c.len n (Spec.ModePad.pad s c.len M), IsBlock c.len b := readBlocks_isBlock hn pf.bytes
+  obtain ⟨_, hCs⟩ := cbcChain_eq h _ iv hiv hb
+  simp only [Spec.Mode.cbc, Spec.Mode.concat, h.len_eq, blocks_of_mult c.len n h.len_pos _ hn, List.length_append]
+  have := length_join_of_all c.len _ (fun b hb' => (hCs b hb').1)
+  simp only [join] at this
+  rw [this, cbcEncrypt_length, readBlocks_length, hn, hiv.1]; omega
+
+/-- length of the padded message -/
+theorem pad_length (s : Spec.ModePad.Scheme) (l : Nat) (hl : 0 < l) (M : List Nat) :
+    (Spec.ModePad.pad s l M).length = if s = .none then M.length else (M.length / l + 1) * l := by
+  cases s with
+  | none => rfl
+  | pkcs7 => exact pkcs7_len l hl M
+  | x923 => exact x923_len l hl M
+  | bit => exact bitpad_len l hl M
+
 end Proofs.Lemmas.ModeL
